@@ -10,7 +10,8 @@ pattern + event indicator / other ages, extreme values, other latent values).  F
 * ``sampler``  6 sweeps of the real IndividualGibbsSampler over every individual latent variable (short acceptance
                window, so that the per-individual proposal scale is adapted 3 times), scripted draws attached to the
                individual: acceptance ratios, decisions, values after every sweep, final proposal scales.
-* ``mcmc``     model.personalize(mode_posterior / mean_posterior), same kind of scripted draws.
+* ``mcmc``     model.personalize(mode_posterior / mean_posterior) with 8 iterations (3 burn-in, acceptance window 2), same
+               kind of scripted draws.
 * ``scipy``    model.personalize(scipy_minimize, n_jobs=1): once with the random start point of every optimisation
                attached to the individual (torch.normal seam) and once through the plain seeded public call.
 * ``njobs``    model.personalize(scipy_minimize, seed=0, n_jobs in {1, 2, 3}) in a fresh non-daemonic interpreter
@@ -45,6 +46,7 @@ import leaspy.models  # noqa: F401  (before leaspy.variables.*)
 from leaspy.io.data import Data, Dataset
 from leaspy.utils.weighted_tensor import WeightedTensor
 from leaspy.variables.specs import IndividualLatentVariable
+from leaspy.variables.state import StateForkType
 
 from .. import seams
 from ..core import Acc
@@ -100,31 +102,33 @@ U_CYCLE = [0.31, 0.62, 0.12, 0.83, 0.47, 0.94, 0.05, 0.55, 0.26, 0.71, 0.38]
 
 N_SWEEPS = 6
 ACC_WINDOW = 2  # acceptation_history_length of the directly driven samplers: 3 adaptations of the scale in 6 sweeps
-MCMC_KW = dict(n_iter=8, n_burn_in_iter=3)
-MCMC_ADAPT_KW = dict(n_iter=8, n_burn_in_iter=3)
+# short acceptance window: the per-individual proposal scales are adapted 4 times within the 8 iterations
+MCMC_KW = dict(n_iter=8, n_burn_in_iter=3,
+               sampler_ind_params={"acceptation_history_length": ACC_WINDOW, "mean_acceptation_rate_target_bounds": [0.2, 0.4],
+                                   "adaptive_std_factor": 0.1})
 
-QUICK_TERMS_MODELS = list(m for m in MODEL_SPECS if not m.startswith("mixture"))
 ALL_MODELS = list(m for m in MODEL_SPECS if not m.startswith("mixture"))
-QUICK_MCMC_MODELS = ["logistic_d2_s1_diag", "joint_d2_s1_diag", "linear_d2_s0_scalar", "logistic_d2_s1_bernoulli"]
+QUICK_SAMPLER_MODELS = ["logistic_d2_s1_diag", "linear_d2_s1_diag", "shared_d2_s1_diag", "joint_d2_s1_diag", "logistic_d2_s1_bernoulli",
+                        "logistic_d1_s0_scalar"]
+QUICK_MCMC_MODELS = ["logistic_d2_s1_diag", "joint_d2_s1_diag", "logistic_d2_s1_bernoulli"]
 QUICK_SCIPY_MODELS = ["logistic_d2_s1_diag", "joint_d1_s0_scalar"]
-THOROUGH_SCIPY_MODELS = ["logistic_d2_s1_diag", "joint_d1_s0_scalar", "linear_d2_s1_diag", "shared_d2_s1_diag",
-                         "logistic_d2_s1_bernoulli", "joint_d2_s1_diag"]
+THOROUGH_SCIPY_MODELS = ["logistic_d2_s1_diag", "joint_d1_s0_scalar", "linear_d2_s1_diag", "shared_d2_s1_diag", "logistic_d2_s1_bernoulli"]
 QUICK_NJOBS_MODELS = ["logistic_d2_s1_diag"]
 THOROUGH_NJOBS_MODELS = ["logistic_d2_s1_diag", "joint_d1_s0_scalar", "linear_d2_s1_diag"]
 
 
 def bounds(tier):
     if tier == "quick":
-        return {"terms/sampler": "all 85 ordered cohorts of size <= 3 of 5 individuals, every subset x 3 modifications, all 12 model kinds, "
-                                 "sampler scripts {0, 1, seed}",
-                "mcmc": "mode/mean posterior, ordered cohorts <= 3 of 5, %d model kinds" % len(QUICK_MCMC_MODELS),
+        return {"terms": "all 85 ordered cohorts of size <= 3 of 5 individuals x 3 modifications of the complement of every focal member, all 12 model kinds",
+                "sampler": "ordered cohorts <= 3 of 4 individuals, same modifications, %d model kinds, 2 scripts of draws" % len(QUICK_SAMPLER_MODELS),
+                "mcmc": "mode/mean posterior, ordered cohorts <= 3 of 4, %d model kinds, 1 script" % len(QUICK_MCMC_MODELS),
                 "scipy": "ordered cohorts <= 2 of 4 individuals, %d model kinds, start points by individual + seeded" % len(QUICK_SCIPY_MODELS),
                 "n_jobs": "{1, 2} on ordered cohorts <= 2 of 3 individuals + one cohort of 3, %d model kind" % len(QUICK_NJOBS_MODELS)}
-    return {"terms/sampler": "all 85 ordered cohorts of size <= 3 of 5 individuals, every subset x 3 modifications, all 12 model kinds, "
-                             "sampler scripts {0, 1, 2, seed}",
-            "mcmc": "mode/mean posterior, ordered cohorts <= 3 of 5, all 12 model kinds",
-            "scipy": "ordered cohorts <= 3 of 5 individuals, %d model kinds" % len(THOROUGH_SCIPY_MODELS),
-            "n_jobs": "{1, 2, 3} on ordered cohorts <= 3 of 4 individuals, %d model kinds" % len(THOROUGH_NJOBS_MODELS)}
+    return {"terms/sampler": "all 85 ordered cohorts of size <= 3 of 5 individuals, every non-empty proper subset x 3 modifications, all 12 model "
+                             "kinds, sampler scripts {0, 1, 2, seed}",
+            "mcmc": "mode/mean posterior, same cohorts and modifications, all 12 model kinds, scripts {0, seed or 2}",
+            "scipy": "ordered cohorts <= 3 of 5 individuals (cohorts of 3: complements of every focal member), %d model kinds" % len(THOROUGH_SCIPY_MODELS),
+            "n_jobs": "{1, 2, 3} on ordered cohorts <= 2 of 4 individuals + 8 cohorts of 3, %d model kinds" % len(THOROUGH_NJOBS_MODELS)}
 
 
 # ------------------------------------------------------------------------------------------
@@ -175,7 +179,9 @@ def cohort_frame(spec, ids, mods):
 def cohort_dataset(spec, ids, mods):
     df = cohort_frame(spec, ids, mods)
     if spec["kind"] == "joint":
-        return Dataset(Data.from_dataframe(df, "joint"))
+        # number of events given (as scipy_minimize does for its single-individual datasets): a cohort whose members
+        # are all censored is refused otherwise
+        return Dataset(Data.from_dataframe(df, "joint", factory_kws={"nb_events": 1}))
     return Dataset(Data.from_dataframe(df))
 
 
@@ -342,6 +348,7 @@ def exec_terms(model, spec, ids, mods, **_):
 def exec_sampler(model, spec, ids, mods, script=0, **_):
     ds, st = prepared_state(model, spec, ids, mods)
     n = len(ids)
+    st.auto_fork_type = StateForkType.REF  # as the algorithms do around their sampling loops
     out = {"ids": list(ids), "shape": tuple(ds.values.shape), "n_obs": n_observations(spec, ds), "per_id": {i: {} for i in ids}, "totals": {},
            "decisions": {i: "" for i in ids}, "u": {i: [] for i in ids}}
     ivs = ind_var_names(st)
@@ -414,7 +421,9 @@ def exec_scipy(model, spec, ids, mods, script=0, draws="by-id", n_jobs=1, **_):
         else:
             ip = model.personalize(ds, "scipy_minimize", progress_bar=False, seed=int(script), n_jobs=n_jobs)
     _ip_rows(ip, ids, out)
-    out["start_draws"] = env.n["n"]
+    if draws == "by-id" and spec["kind"] != "joint" and env.n["n"] != n_vars * len(ids):
+        # (the joint model starts from the first visit / the event time, without any draw)
+        raise RuntimeError(f"harness: {env.n['n']} start-point draws seen for {len(ids)} individuals x {n_vars} variables")
     return out
 
 
@@ -440,6 +449,9 @@ class Runner:
                 self._model = build_model(self.spec)
             return self._model
         return build_model(self.spec)
+
+    def prior_std(self):
+        return prior_stds(build_model(self.spec))
 
     def run(self, ids, mods):
         key = (tuple(ids), tuple(sorted(mods.items())))
@@ -501,7 +513,7 @@ def close(a, b, tol):
     return bool(((a64 - b64).abs()[fin] <= tol).all())
 
 
-def compare_rows(part, kw, relation, i, mine, theirs, exact, n_obs, n_dims, u_list=None):
+def compare_rows(part, kw, relation, i, mine, theirs, exact, n_obs, n_dims, u_list=None, opt_std=None):
     """Returns (problems [(signature, message)], n_rounded, skipped)."""
     probs, rounded = [], 0
     if set(mine) != set(theirs):
@@ -533,6 +545,9 @@ def compare_rows(part, kw, relation, i, mine, theirs, exact, n_obs, n_dims, u_li
             la, lb = torch.log(a.to(torch.float64)), torch.log(b.to(torch.float64))
             scale_d = float(torch.nan_to_num(la.abs(), posinf=0.0, nan=0.0).max())
             ok = close(la, lb, tol_d + 64 * EPS32 * scale_d)
+        elif opt_std is not None:
+            # two optimisations from two start points: parameters within 5e-2 prior standard deviations (DESIGN 2.3)
+            ok = close(a, b, 5e-2 * float(opt_std[name].max()))
         elif base in ("value", "std") or part in ("mcmc", "scipy"):
             ok = close(a, b, 1e-5 * (1.0 + float(torch.nan_to_num(a.abs(), posinf=0.0, nan=0.0).max())))
         else:
@@ -597,7 +612,7 @@ def check_case(runner, ids, mods):
         return probs, info
     probs += check_totals(part, kw, out)
 
-    def versus(other_ids, other_mods, relation, who, exact):
+    def versus(other_ids, other_mods, relation, who, exact, opt_std=None):
         other = runner.run(other_ids, other_mods)
         if "exc" in other:
             return  # reported by its own case
@@ -606,8 +621,10 @@ def check_case(runner, ids, mods):
             ex = exact if same_shape else False
             if part == "scipy":
                 ex = exact  # one single-individual dataset per subject: the cohort's padded shape is irrelevant
+            if opt_std is not None:
+                ex = False
             p, r, s = compare_rows(part, kw, relation, i, out["per_id"][i], other["per_id"][i], ex, out["n_obs"][i], nd,
-                                   u_list=out.get("u", {}).get(i))
+                                   u_list=out.get("u", {}).get(i), opt_std=opt_std)
             probs.extend(p)
             info["rounded"] += r
             info["skipped"] += int(s)
@@ -618,8 +635,12 @@ def check_case(runner, ids, mods):
         versus(ids, {}, f"changes when only OTHER individuals are modified ({kind})", [i for i in ids if i not in mods], True)
     else:
         if list(ids) != sorted(ids):
-            exact = not (part == "scipy" and kw.get("draws") == "seeded")
-            versus(sorted(ids), {}, "differs between two orders of the same cohort", ids, exact)
+            if part == "scipy" and kw.get("draws") == "seeded":
+                # the start point of the k-th optimisation is the k-th draw of the seeded generator: another optimisation
+                versus(sorted(ids), {}, "differs between two orders of the same cohort beyond the optimiser tolerance", ids, False,
+                       opt_std=runner.prior_std())
+            else:
+                versus(sorted(ids), {}, "differs between two orders of the same cohort", ids, True)
             other = runner.run(sorted(ids), {})
             if "exc" not in other:
                 for tot, val in out["totals"].items():
@@ -729,24 +750,27 @@ def check_njobs(acc, model_name, cohorts, n_jobs_list):
 def _scripts(tier, seed):
     s = [0, 1] if tier == "quick" else [0, 1, 2]
     if seed not in s:
-        s.append(int(seed))
+        s = s[:-1] + [int(seed)] if tier == "quick" else s + [int(seed)]
     return s
 
 
 def shards(tier, seed):
+    """Cheapest parts first.  `subsets`: "every" = every non-empty proper subset of the members is modified,
+    "all-others" = for cohorts of 3 only the complements of one focal member (cohorts of 2: the same thing)."""
     out = []
     thorough = tier == "thorough"
     scripts = _scripts(tier, seed)
-    # terms: cheap, all models, all ordered cohorts <= 3 of 5
     for m in ALL_MODELS:
-        out.append({"part": "terms", "model": m, "pool": IDS, "kmax": 3, "tier": tier})
-    for m in ALL_MODELS:
+        out.append({"part": "terms", "model": m, "pool": IDS, "kmax": 3, "subsets": "every" if thorough else "all-others", "tier": tier})
+    for m in (ALL_MODELS if thorough else QUICK_SAMPLER_MODELS):
         for s in scripts:
-            out.append({"part": "sampler", "model": m, "pool": IDS, "kmax": 3, "script": s, "tier": tier})
+            out.append({"part": "sampler", "model": m, "pool": IDS if thorough else IDS[:4], "kmax": 3, "script": s, "subsets": "every" if thorough else "all-others",
+                        "tier": tier})
     for m in (ALL_MODELS if thorough else QUICK_MCMC_MODELS):
         for algo in ("mode_posterior", "mean_posterior"):
-            for s in (scripts if thorough else scripts[:1] + scripts[2:]):
-                out.append({"part": "mcmc", "model": m, "algo": algo, "pool": IDS, "kmax": 3, "script": s, "tier": tier})
+            for s in (scripts[:1] + scripts[-1:] if thorough else scripts[-1:]):
+                out.append({"part": "mcmc", "model": m, "algo": algo, "pool": IDS if thorough else IDS[:4], "kmax": 3, "script": s,
+                            "subsets": "every" if thorough else "all-others", "tier": tier})
     # scipy_minimize: one shard per unordered cohort (its orders, its modifications, its singletons)
     pool = IDS if thorough else IDS[:4]
     kmax = 3 if thorough else 2
@@ -756,7 +780,7 @@ def shards(tier, seed):
                 for draws in ("by-id", "seeded"):
                     if k == 3 and draws == "seeded" and m != THOROUGH_SCIPY_MODELS[0]:
                         continue
-                    out.append({"part": "scipy", "model": m, "members": list(comb), "draws": draws,
+                    out.append({"part": "scipy", "model": m, "members": list(comb), "draws": draws, "subsets": "all-others",
                                 "script": 0 if draws == "by-id" else int(seed), "tier": tier})
     for m in (THOROUGH_NJOBS_MODELS if thorough else QUICK_NJOBS_MODELS):
         if thorough:
@@ -765,7 +789,13 @@ def shards(tier, seed):
         else:
             cohorts = ordered_cohorts(IDS[:3], 2) + [["c", "a", "b"]]
             out.append({"part": "njobs", "model": m, "cohorts": cohorts, "n_jobs": [1, 2], "tier": tier})
-    return out
+    # one shard of every part first (the evidence samples are taken from the first shards), otherwise cheapest parts first
+    first, seen = [], set()
+    for sh in out:
+        if sh["part"] not in seen:
+            seen.add(sh["part"])
+            first.append(sh)
+    return first + [sh for sh in out if not any(sh is f for f in first)]
 
 
 def case_of(shard, ids, mods):
@@ -816,17 +846,14 @@ def run_shard(shard):
         cohorts = ordered_cohorts(shard["pool"], shard["kmax"])
     for ids in cohorts:
         maps = modification_maps(ids)
-        if part == "scipy" and len(ids) == 3:
-            # the 'all others' subsets only (every focal member), every modification kind
-            maps = [{}] + [{j: m for j in ids if j != i} for i in ids for m in MODS]
-        if part == "mcmc" and len(ids) == 3 and shard["tier"] == "quick":
+        if len(ids) == 3 and shard["subsets"] == "all-others":
             maps = [{}] + [{j: m for j in ids if j != i} for i in ids for m in MODS]
         for mods in maps:
             case = case_of(shard, ids, mods)
             probs, info = check_case(runner, ids, mods)
             record(acc, runner, case, probs, info)
-            if len(acc.samples) < 2 and len(ids) == 2 and mods:
-                acc.sample(case)
+            if len(acc.samples) < 1 and len(ids) == 3 and mods and list(ids) != sorted(ids):
+                acc.sample(dict(case, relations=info["relations"], frame=cohort_frame(runner.spec, ids, mods).to_dict("list")))
     acc.count(f"{part}: executions of the implementation", runner.n_exec)
     return acc.to_dict()
 
